@@ -12,7 +12,12 @@ GUARD = 'POMEROL_VERIF'
 
 BASE_FLAGS = ['-std=c++11', '-O1', '-S', '-emit-llvm', '-fno-vectorize', '-fno-slp-vectorize', '-fno-unroll-loops',
               '-DNDEBUG', '-DEIGEN_DONT_VECTORIZE', '-DBOOST_MULTI_INDEX_DISABLE_COMPRESSED_ORDERED_INDEX_NODES',
-              '-D' + GUARD, '-Wno-everything']
+              '-D' + GUARD, '-Wno-everything',
+              # Production builds get libstdc++'s <stdlib.h> wrapper (using std::abs; ...) through Eigen's SSE
+              # headers (emmintrin.h -> mm_malloc.h -> stdlib.h).  With EIGEN_DONT_VECTORIZE that include chain
+              # disappears and unqualified abs(double) in pomerol would silently bind to ::abs(int).  Force the
+              # same wrapper in, so that overload resolution is the one of the production build.
+              '-include', 'stdlib.h']
 
 
 def include_flags(scratch, mpi_model=True):
